@@ -11,10 +11,14 @@ GNext ==
      \/ \E s \in Streams : Answer(s) /\ H([a |-> "Answer", s |-> s])
      \/ \E s \in Streams : StreamFailed(s) /\ H([a |-> "StreamFailed", s |-> s])
      \/ \E s \in Streams : LateClosed(s) /\ H([a |-> "LateClosed", s |-> s])
-     \/ \E a \in {"A", "B", "none"} : SetAttacher(a) /\ H([a |-> "SetAttacher", who |-> a])
+     \/ \E a \in {"A", "B", "P", "none"} : SetAttacher(a) /\ H([a |-> "SetAttacher", who |-> a])
      \/ \E k \in Conns, c \in Circs, late \in BOOLEAN : ViaConnect(k, c, late) /\ H([a |-> "ViaConnect", k |-> k, c |-> c, late |-> late])
      \/ ConfAck /\ H([a |-> "ConfAck"])
      \/ \E k \in Conns, p \in Ports : ViaAddr(k, p) /\ H([a |-> "ViaAddr", k |-> k, p |-> p])
      \/ \E c \in Circs, to \in {"BUILDING", "BUILT", "GONE"} : CircStep(c, to) /\ H([a |-> "CircStep", c |-> c, to |-> to])
+     \/ \E x \in Subs, pr \in Prios : AddSub(x, pr) /\ H([a |-> "AddSub", x |-> x, prio |-> pr])
+     \/ \E x \in Subs : RemSub(x) /\ H([a |-> "RemSub", x |-> x])
+     \/ \E s \in Streams, kind \in {"normal", "exit", "resolve"}, p \in Ports, sa \in [Subs -> SubAnswers] :
+          NewStreamP(s, kind, p, sa) /\ H([a |-> "NewStreamP", s |-> s, kind |-> kind, p |-> p, sa |-> sa])
 GSpec == GInit /\ [][GNext]_<<vars, hist>>
 ====
